@@ -17,10 +17,15 @@ type verifLoop struct {
 	serving bool
 	// onRequest, if set, sees every complete request frame before the server does
 	onRequest func(frame []byte)
+	// onWrite, if set, sees the bytes written so far of the current request at every Write
+	onWrite func(sofar []byte)
 }
 
 func (l *verifLoop) Write(p []byte) (int, error) {
 	l.c2s = append(l.c2s, p...)
+	if l.onWrite != nil {
+		l.onWrite(l.c2s)
+	}
 	return len(p), nil
 }
 
